@@ -159,13 +159,17 @@ CHECKS = {
         note=NOTE_COMMON + "Partial: point-versus-collinear for a one-point overlap and the rounding distance of the float computation (bound 16 eps M kappa) are oracle-checked, not proved; the theorems are about exact arithmetic.",
     ),
     "C15": dict(
-        technique="Lean 4 theorems over linearly ordered fields (clamped-projection rule attains the minimum over the segment in 2D and 3D; Lagrange identity for the |s|L shortcut; direction symmetry) + bit-exact Float correspondence + exact rational minimum-distance oracle",
+        technique="Lean 4 theorems over linearly ordered fields (clamped-projection rule attains the minimum over the segment in 2D and 3D; segment-to-segment: the code's closest-approach parameters are the critical point of a convex quadratic, which is its global minimum, and when it leaves the unit square the minimum is on the border = the four point-to-segment problems; Lagrange identity; direction symmetry) + bit-exact Float correspondence + exact rational minimum-distance oracle",
         text="C15_point_segment_2d/3d: for every point and non-degenerate segment the code's three-way rule (start if r<=0, end if r>=1, foot otherwise) yields "
              "the minimum of the squared distance over all t in [0,1]; C15_perpendicular_formula: the 2D shortcut |s|*sqrt(L) squared equals the squared "
-             "distance to the foot; C15_direction_symmetric. Segment-to-segment (2D: 0 iff crossing else least endpoint distance; 3D: interior critical "
+             "distance to the foot; C15_direction_symmetric. C15_segment_segment_3d with C15_cross_params_critical / C15_parallel_params_critical / "
+             "C15_critical_is_min / C15_optimum_on_border / gq_border: the parameters xyz.DistanceLineToLine computes (cross products, since the repair of defect 15) "
+             "are the critical point of the squared distance, that point is the global minimum, and when it lies outside the unit square every point of the square is "
+             "beaten by a border point, i.e. by one of the four end-point-to-segment distances the code then takes the least of - so the code's rule is the minimum "
+             "(3-D, and 2-D non-parallel). Segment-to-segment (2D: 0 iff crossing else least endpoint distance; 3D: interior critical "
              "point or least endpoint distance), zero-length segments, NaN-freedom and argument symmetry are checked on every explored input against exact "
              "rational arithmetic, with the Lean Float mirror reproducing Go bit for bit.",
-        note=NOTE_COMMON + "Partial: segment-segment minimality (convexity argument) is oracle-checked, not proved; float rounding is bounded by tolerance 1e-9*scale, not proved.",
+        note=NOTE_COMMON + "Partial: 2-D parallel segments (the optimum is a line of parameters) are oracle-checked, not proved; float rounding is bounded by tolerance 1e-9*scale, not proved.",
     ),
     "C14": dict(
         technique="Lean 4 theorems over commutative rings (telescoping fan identities: area and first moments are independent of the base point and equal the shoelace sums) + bit-exact Float correspondence + exact rational centroid/area oracle",
